@@ -103,6 +103,16 @@ PLAN = {
             {"run": "TestC10_Missing|TestC10_Replay"},
         ],
     },
+    "C11": {
+        "quick": [
+            {"run": "TestC11_Programs", "checks": 150, "race": True},
+            {"run": "TestC11_LRULinearizable", "checks": 1000, "race": True},
+        ],
+        "thorough": [
+            {"run": "TestC11_Programs", "checks": 3000, "race": True, "shards": 8, "timeout": 3000},
+            {"run": "TestC11_LRULinearizable", "checks": 20000, "race": True, "shards": 8, "timeout": 3000},
+        ],
+    },
     "C12": {
         "quick": [
             {"run": "TestC12_Model", "checks": 4000},
